@@ -68,10 +68,13 @@ def est_mass(m):
 def assign(rng, s, scale):
     """returns declared fractions; writes mixture specifiers so that the library can infer everything"""
     n = len(s.mols)
-    cuts = sorted(rng.uniform(0.05, 0.95) for _ in range(n - 1))
-    fr = [b - a for a, b in zip([0.0] + cuts, cuts + [1.0])]
-    pct = [round(100 * f, 2) for f in fr]
-    pct[-1] = round(100 - sum(pct[:-1]), 2)
+    while True:
+        cuts = sorted(rng.uniform(0.05, 0.95) for _ in range(n - 1))
+        fr = [b - a for a, b in zip([0.0] + cuts, cuts + [1.0])]
+        pct = [round(100 * f, 2) for f in fr]
+        pct[-1] = round(100 - sum(pct[:-1]), 2)
+        if min(pct) >= 0.05:
+            break  # the property speaks of POSITIVE masses and percentages: two cuts that coincide after rounding would declare a share of 0
     mean = sum(est_mass(m) for m in s.mols) / n
     M = round(mean * scale, 1)
     if rng.random() < 0.5 or n == 1:
